@@ -63,12 +63,12 @@ Proof. exact @calculate_root_single. Qed.
 Theorem C10_verify_sound_single_query_partial :
   forall (V Hsh : Type) (hempty : Hsh) (hleaf : key -> V -> Hsh) (hbranch : Hsh -> Hsh -> Hsh),
     (forall a b c d, hbranch a b = hbranch c d -> a = c /\ b = d) ->
-    (forall k v k' v', hleaf k v = hleaf k' v' -> k = k' /\ v = v') ->
+    (forall k v k' v', length k = length k' -> hleaf k v = hleaf k' v' -> k = k' /\ v = v') ->
     (forall k v a b, hleaf k v <> hbranch a b) ->
     (forall k v, hleaf k v <> hempty) ->
     (forall a b, hbranch a b <> hempty) ->
     forall n (t : @T V) qk bm sibs,
-      wf n 0 t -> length bm <= length qk ->
+      wf n 0 t -> length qk = n -> length bm <= length qk ->
       (forall v, recompute hempty hbranch qk bm sibs (hleaf qk v) = Some (hash hempty hleaf hbranch t) ->
          In (qk, v) (tomap t) /\
          forall k v', In (k, v') (tomap t) -> firstn (length bm) k = firstn (length bm) qk -> k = qk /\ v' = v) /\
@@ -114,12 +114,12 @@ Proof. exact @verify_sound. Qed.
    ToBools/FromBools round trip on byte strings, which is tied by the correspondence runs only.) *)
 Theorem C10_node_claims :
   forall (V Hsh : Type) (hempty : Hsh) (hleaf : key -> V -> Hsh) (hbranch : Hsh -> Hsh -> Hsh),
-    (forall k v k' v', hleaf k v = hleaf k' v' -> k = k' /\ v = v') ->
+    (forall k v k' v', length k = length k' -> hleaf k v = hleaf k' v' -> k = k' /\ v = v') ->
     (forall k v a b, hleaf k v <> hbranch a b) ->
     (forall k v, hleaf k v <> hempty) ->
     (forall a b, hbranch a b <> hempty) ->
     forall n (t nd : @T V) p, wf n 0 t -> subtree_at t p = Some nd ->
-      (forall qk v, hash hempty hleaf hbranch nd = hleaf qk v ->
+      (forall qk v, length qk = n -> hash hempty hleaf hbranch nd = hleaf qk v ->
          In (qk, v) (tomap t) /\ forall k v', In (k, v') (tomap t) -> firstn (length p) k = p -> k = qk /\ v' = v) /\
       (hash hempty hleaf hbranch nd = hempty -> forall k v', In (k, v') (tomap t) -> firstn (length p) k <> p).
 Proof. exact @node_claims. Qed.
@@ -143,13 +143,15 @@ From LE Require Import SMT.ClaimsTop.
    reachable by any batch history is well-formed: C10_reachable_tries_wf) then for every (requested key, query) pair:
    a non-empty value is in the map under the query key; an empty value means the requested key is absent; a query key
    whose bits differ from the requested key's means the requested key is absent.
-   Hash hypotheses: equality test exact, wire leaf hash and branch hash injective, leaf / branch / empty disjoint. *)
+   Hash hypotheses: equality test exact, branch hash injective, wire leaf hash injective AMONG KEYS OF EQUAL LENGTH (a leaf
+   commits to key ++ value, not to the split point — which is why Verify must, and after fix bde225a does, reject query keys
+   whose length is not the trie's key length), leaf / branch / empty disjoint. *)
 Theorem C10_verify_sound_against_map :
   forall (Hsh : Type) (hempty : Hsh) (hleafb : list N -> list N -> Hsh) (hbranch : Hsh -> Hsh -> Hsh)
          (heqb : Hsh -> Hsh -> bool) (hnull : Hsh -> bool),
     (forall a b, heqb a b = true -> a = b) ->
     (forall a b c d, hbranch a b = hbranch c d -> a = c /\ b = d) ->
-    (forall k v k' v', hleafb k v = hleafb k' v' -> k = k' /\ v = v') ->
+    (forall k v k' v', length k = length k' -> hleafb k v = hleafb k' v' -> k = k' /\ v = v') ->
     (forall k v a b, hleafb k v <> hbranch a b) ->
     (forall k v, hleafb k v <> hempty) ->
     (forall a b, hbranch a b <> hempty) ->
